@@ -206,7 +206,7 @@ class Check(common.Check):
         'mce_law', 'wrapAt_spec', 'mce_scalar', 'mce_untouched', 'mce_path_law', 'mce_calls_in_path_order',
         'mce_one_call_per_path', 'mce_unit_count_le', 'mce_unit_count_flat', 'mce_shape_indep', 'mce_no_error',
         'wrap_extend_law', 'binop_law', 'unop_law', 'narop_law', 'binop_container', 'flop_law', 'perform_law',
-        'out_flatten', 'silence_only_replaces_zeros', 'silence_leaves_no_zero', 'out_no_literal_zero',
+        'out_flatten', 'silence_only_replaces_zeros', 'silence_leaves_no_zero', 'silence_idempotent', 'out_no_literal_zero',
         'silence_levels')]
     N_QUICK = 3000
     N_THOROUGH = 60000
@@ -378,6 +378,8 @@ class Check(common.Check):
 
         def zval(depth):
             r = rng.random()
+            if depth > 0 and r < 0.12:      # a caller-owned routing row of plain numbers, zeros included
+                return {rng.choice('llc'): [rng.choice([0, 0, 0.0, 1, 0.5]) for _ in range(rng.randint(1, 3))]}
             if r < 0.3:
                 return rng.choice([0, 0, 0.0, False])
             if r < 0.4:
@@ -620,6 +622,17 @@ class Check(common.Check):
     # ---- property oracle (independent of the Lean model) ----------------------------------------
     def oracle(self, case, io):
         k = case['k']
+        if k in ('ctor', 'out'):
+            # expansion is a function of the argument VALUES: the caller's argument objects are left as
+            # they were, and the same call on the same objects in a second build gives the same result
+            name = f"{case['cls']}.{case['meth']}"
+            if io.get('args_changed'):
+                return {'what': f"{name} modified the caller's argument object(s) at {io['args_changed']} "
+                                f"(sequences of numbers handed in by the caller)", 'signature': f'{k}:args-mutated'}
+            if io.get('again_same') is False:
+                return {'what': f"{name} called again in a second build with the very same argument objects "
+                                f"gives a different result", 'signature': f'{k}:rebuild-differs',
+                        'second': io.get('again')}
         if k in ('ctor', 'op', 'meth'):
             return self.oracle_law(case, io)
         if k == 'out':
@@ -795,6 +808,8 @@ class Check(common.Check):
                         return 1 + max([depth(x) for x in t['chan']], default=0) if 'chan' in t else 0
                     inc(f"depth:{depth(o['exp']['ret'])}")
             elif c['k'] == 'out':
+                if o.get('nshared'):
+                    inc('out-with-caller-owned-sequences')
                 if 'exc' in o['obs']:
                     inc('out-exc:' + o['obs']['exc'])
                 else:
